@@ -86,6 +86,31 @@ def filtered_list(P, b, lst, gate):
     return False, "list is neither a fresh Vec filled on the accepting edge nor retain(gate): definitions %s, mutations %s" % ([term_str(d)[:40] for d in defs], sorted({m for _, m in muts}))
 
 
+def _true_implies(cb):
+    """which of the gates {get_entity, json} have succeeded whenever the predicate closure `cb` returns true: every definition of
+    its return value is the constant false, or is made under (or is itself) the success of the gate"""
+    sat = None
+    for (bi, si, rv, lhs) in cb.defs().get(0, ()):
+        if bi not in cb.live_blocks() or len(lhs) != 1:
+            continue
+        dt = mir.strip_refs(cb.def_term(bi, si, rv, 0, True))
+        for alt in (dt[1] if dt[0] == "phi" else [dt]):
+            alt = mir.strip_refs(alt)
+            if alt[0] == "const" and alt[1] is False:
+                continue
+            here = set()
+            for s_, vals, term in cb.implied_guards(bi, expand_vars=True):
+                dv = mir.guard_variants(cb, s_, vals, term)
+                if dv and dv[1] == ["Ok"] and mir.has_call(dv[0], r"DataModel::get_entity$"):
+                    here.add("get_entity")
+                if dv and dv[1] == ["Ok"] and mir.has_call(dv[0], r"validate_json_for_entity$"):
+                    here.add("json")
+            if alt[0] == "call" and alt[1].endswith("::is_ok") and alt[2] and mir.has_call(alt[2][0], r"validate_json_for_entity$"):
+                here.add("json")
+            sat = here if sat is None else (sat & here)
+    return sat or set()
+
+
 def run(P, C, tier):
     C.explanation = (
         "Static decision of the structural part of C02: value-flow (taint) from the network receive calls to the six "
@@ -242,6 +267,14 @@ def run(P, C, tier):
                         need["get_entity"] = True
                     if names == ["Ok"] and mir.has_call(base, r"validate_json_for_entity$"):
                         need["json"] = True
+                    flt = mir.has_call(base, r"Option<.*>::filter$|Option::filter$")
+                    if names == ["Some"] and flt is not None and len(flt[2]) > 1:
+                        # `name_for(..).filter(|name| <both tests succeed>)`: Some only when the predicate answered true
+                        clo = mir.strip_refs(flt[2][1])
+                        cb_ = P.bodies.get(clo[2]) if clo[0] == "aggr" and clo[1] == "closure" else None
+                        if cb_ is not None:
+                            for k_ in _true_implies(cb_):
+                                need[k_] = True
                     if names == ["Some"] and mir.has_call(base, r"Option.*::as_ref$") and an.cpath(base).endswith("‹NodeToInsert›.node"):
                         need["node-some"] = True
                     if names == ["Some"] and field_path(base).endswith("old_entity"):
